@@ -610,6 +610,8 @@ class Scheduler:
                     s0 = st["sess"]
                     in_drain = s0 is not None and getattr(s0, "_closed", False)  # close()/cancel() set _closed first
                     w.last_cause = causes[st["ending"]] if in_drain else causes.get(st["cur"], "other")
+                    if raise_map[n] in "ORA":  # a class some except / suppress clause of the client names
+                        w.last_cause += "-suppressed-class"
                 raise make_exc(raise_map[n], n)
 
         def fresh() -> int:
